@@ -145,6 +145,44 @@ pub fn byte_faults(w: &World, seed: u64, cx: &mut Ctx) -> R {
             eval_text(&case, e, cx)?;
         }
     }
+    // records assembled field by field from pools of well-formed and malformed tokens: strings
+    // that are not a small edit away from the current record (still only totality and
+    // "accept => valid structure, right denotation" are demanded)
+    let placements: Vec<String> = {
+        let mut v = vec![m.placement_text(), "8/8/8/8/8/8/8/8".to_string(), "k7/8/8/8/8/8/8/K7".to_string(), "kK6/8/8/8/8/8/8/8".to_string()];
+        let other = synth::synth_any(&mut rng, (seed % 6) as usize);
+        v.push(other.placement_text());
+        v.push(format!("{}/8", other.placement_text()));
+        v.push(other.placement_text().replacen('/', "", 1));
+        v.push("rnbqkbnr/pppppppp/44/8/8/8/PPPPPPPP/RNBQKBNR".to_string());
+        v.push("rnbqkbnr/pppppppp/17/8/8/8/PPPPPPPP/RNBQKBNR".to_string());
+        v.push("rnbqkbnr/pppppppp/08/8/8/8/PPPPPPPP/RNBQKBNR".to_string());
+        v.push("rnbqkbnr/pppppppp/8/8/8/8/PPPPPPPP/RNBQKBN".to_string());
+        v.push("rnbqkbnr/pppppppp/8/8/8/8/PPPPPPPP/RNBQKBNRR".to_string());
+        v.push("rnbqkbnr/pppppppp/8/8/8/8/PPPPPPPPP/RNBQKBNR".to_string());
+        v.push("rnbqkbnr/pppppppp/９/8/8/8/PPPPPPPP/RNBQKBNR".to_string());
+        v
+    };
+    let sides = ["w", "b", "W", "", "-", "wb", "ｗ"];
+    let castles = ["-", "KQkq", "K", "q", "HAha", "Hh", "AH", "kqKQ", "KQkqK", "Kh", "", "x", "E", "e", "--"];
+    let eps = ["-", "e3", "e6", "a3", "h6", "e4", "E3", "", "e", "e33", "-e3"];
+    let numbers = ["0", "1", "50", "99", "100", "101", "255", "256", "65535", "65536", "+1", "-0", "007", "", "1e1", "0x1", " 1"];
+    for _ in 0..24 {
+        let text = format!(
+            "{} {} {} {} {} {}",
+            rng.pick(&placements),
+            rng.pick(&sides),
+            rng.pick(&castles),
+            rng.pick(&eps),
+            rng.pick(&numbers),
+            rng.pick(&numbers)
+        );
+        cx.stats.add("op_W.assembled-record", 1);
+        let case = TextCase { name: "W.assembled-record", text, expect: Expect::Total, plain_entry_only: false };
+        for e in [Entry::Fen, Entry::Sfen, Entry::FromStr] {
+            eval_text(&case, e, cx)?;
+        }
+    }
     Ok(())
 }
 
